@@ -337,6 +337,14 @@ def run(ctx: Ctx) -> None:
         sites = effect_sites(ctx, f, ["store_blob"])
         nokey = [b for b in cfg.nodes if b.kind == "branch" and b.ast is not None and "key" in unparse(b.ast) and (
             (b.label == "F" and unparse(b.ast).endswith("is not None")) or (b.label == "T" and unparse(b.ast).endswith("is None")))]
+        # ... or has no path at all (dds.eval): the key of the root is looked up by its path
+        fa_ = f.node.args
+        path_params = [x.arg for x in fa_.posonlyargs + fa_.args + fa_.kwonlyargs if x.annotation is not None and "DDSPath" in unparse(x.annotation, 100)]
+        for b in cfg.nodes:
+            if b.kind == "branch" and isinstance(b.ast, ast.Compare) and len(b.ast.ops) == 1 and isinstance(b.ast.left, ast.Name) and b.ast.left.id in path_params \
+                    and isinstance(b.ast.comparators[0], ast.Constant) and b.ast.comparators[0].value is None:
+                if (isinstance(b.ast.ops[0], ast.IsNot) and b.label == "F") or (isinstance(b.ast.ops[0], ast.Is) and b.label == "T"):
+                    nokey.append(b)
         for uc in ucs:
             bad_p = None
             for d in done_nodes(cfg, uc):
